@@ -363,7 +363,24 @@ func find(ms *yang.Modules, t string) *yang.Entry {
 	return e
 }
 
+// check accepts either order of application when several modules deviate (the statement fixes the
+// order inside one deviation only; which module goes first is not claimed - that the choice is the
+// same for every load order is C05's business).
 func check(in Input) (f *fail, wantErr bool) {
+	mods := map[string]bool{}
+	for _, d := range in.Devs {
+		mods[d.Mod] = true
+	}
+	f, wantErr = checkOrder(in, false)
+	if f != nil && len(mods) > 1 && !strings.HasPrefix(f.fp, "panic") {
+		if f2, w2 := checkOrder(in, true); f2 == nil {
+			return nil, w2
+		}
+	}
+	return f, wantErr
+}
+
+func checkOrder(in Input, reverse bool) (f *fail, wantErr bool) {
 	pan, pt := core.Guard(func() {
 		if baseMS == nil {
 			r := dump.Run([]dump.File{{Name: "a.yang", Text: baseText}}, dump.Options{})
@@ -375,7 +392,12 @@ func check(in Input) (f *fail, wantErr bool) {
 		// reference: deviations in the order the library applies modules (by key) and, inside a
 		// module and a deviation, in written order
 		devs := append([]Deviation{}, in.Devs...)
-		sort.SliceStable(devs, func(i, j int) bool { return devs[i].Mod < devs[j].Mod })
+		sort.SliceStable(devs, func(i, j int) bool {
+			if reverse {
+				return devs[i].Mod > devs[j].Mod
+			}
+			return devs[i].Mod < devs[j].Mod
+		})
 		want := map[string]*node{}
 		dc := map[string]map[string]bool{}
 		anyDC := false
@@ -627,7 +649,7 @@ func replay(tier string, raw json.RawMessage) (bool, string, string) {
 func init() {
 	core.Register(&core.Prop{
 		ID: "C08", Variant: "plain", Shards: shards, Run: run, Replay: replay,
-		Rule:        "DEV family over a fixed base module: for every target and every sequence of one or two deviate statements (and two deviations in two modules), the reference starts from the attributes the library itself reports for the target without the deviating modules and applies RFC 7950 7.20.3 in written order (modules in key order): not-supported removes the target subtree (retains it under ignore-not-supported); add/replace/delete set config, default, mandatory, min/max-elements, units, type as prescribed; listed inapplicable cases (missing target, adding a default where one exists, deleting an absent or different default or bound, bounds on a non-list, unresolvable type, unknown deviate kind) must give an error. Frame: every node that is not a target (nor below a removed target) must dump exactly as in the un-deviated tree, the other use of a grouping included. Combinations RFC 7950 forbids but the statement does not list are don't-care for the touched attribute and for error/no error, and still subject to the frame. states = distinct deviation lists",
+		Rule:        "DEV family over a fixed base module: for every target and every sequence of one or two deviate statements (and two deviations in two modules), the reference starts from the attributes the library itself reports for the target without the deviating modules and applies RFC 7950 7.20.3 in written order (either order of the deviating modules is accepted): not-supported removes the target subtree (retains it under ignore-not-supported); add/replace/delete set config, default, mandatory, min/max-elements, units, type as prescribed; listed inapplicable cases (missing target, adding a default where one exists, deleting an absent or different default or bound, bounds on a non-list, unresolvable type, unknown deviate kind) must give an error. Frame: every node that is not a target (nor below a removed target) must dump exactly as in the un-deviated tree, the other use of a grouping included. Combinations RFC 7950 forbids but the statement does not list are don't-care for the touched attribute and for error/no error, and still subject to the frame. states = distinct deviation lists",
 		Assumptions: []string{"the base of the comparison is the library's own un-deviated tree", "not-supported combined with other deviate statements in one deviation is invalid and not generated", "must/unique deviations are outside the claim"},
 	})
 }
